@@ -45,8 +45,11 @@ type MutantResult struct {
 	Message string   `json:"message,omitempty"`
 }
 
+// procStart is taken when the process starts so that wall_s includes loading /repo.
+var procStart = time.Now()
+
 func NewReport(prop, tier string, p *Prog) *Report {
-	return &Report{Prop: prop, Tier: tier, P: p, rulesSeen: map[string]int{}, start: time.Now()}
+	return &Report{Prop: prop, Tier: tier, P: p, rulesSeen: map[string]int{}, start: procStart}
 }
 
 // Ob records an obligation. key parts are joined with '|' after the rule id.
